@@ -45,7 +45,7 @@ def _lens(l):
 
 def write_layer():
     common = dict(harness="h_c16.c", units=["src/misc.c"], models=["c16_io.c", "c16_stubs.c"], unwind=12,
-                  unwindset={"c16_append.0": 18, "write_fd.0": 13, "xopen.0": 12, "xclose.0": 12, "strlen.0": 8, "strcpy.0": 4, "strdup.0": 4},
+                  unwindset={"c16_append.0": 18, "write_fd.0": 13, "write_fd.1": 2, "xopen.0": 12, "xclose.0": 12, "strlen.0": 8, "strcpy.0": 4, "strdup.0": 4},
                   stubs=IO_STUBS + ["realloc/malloc/free = CBMC built-in models (fresh exact-size object per allocation, --no-malloc-may-fail)"],
                   vin_size=64)
     LA, LB = (2, 1, 0, 3), (0, 3, 1, 1)
@@ -93,7 +93,8 @@ def write_layer():
            desc="unbuffered path: write(2 bytes), write(4096 bytes), write(2 bytes) to the stdio or file target (symbolic choice): the buffered 2 bytes reach "
                 "the target first, then the block straight from the source, then the tail - 4100 bytes in order",
            encodes=["vbi_export_write", "fast_write", "fast_flush", "vbi_export_stdio", "vbi_export_file", "write_fp", "write_fd"],
-           bounds="one fixed operation list; block content symbolic at its first two and last byte", reach=["end"], timeout=300, mem_gb=2, **common),
+           bounds="one fixed operation list; block content symbolic at its first two and last byte", reach=["end"], timeout=300, mem_gb=2,
+           defines={"G_BIG": None}, **common),
     ]
 
 
@@ -134,7 +135,7 @@ def text_output():
 
 
 def rendering():
-    known = {} if STRICT else {"KNOWN_C16_CUT_WIDE": 1}
+    known = {} if STRICT else {"KNOWN_C16_CUT_WIDE": 1, "KNOWN_C16_ITALIC_CYRILLIC": 1}
     # the row loop of draw_char runs to `ch' which is 10/26 or half of it depending on the (symbolic) size attribute: symex cannot decide the exit
     # test and would unwind to the global bound; explicit bounds for every loop of the renderer (unwinding assertions prove them sufficient)
     gus = {"draw_char.4": 27, "draw_char.0": 17, "draw_char.1": 17, "draw_char.2": 33, "draw_char.3": 33,
@@ -144,35 +145,48 @@ def rendering():
     for k in range(8):
         gus["draw_drcs.%d" % k] = 13
     common = dict(harness="h_c16_gfx.c", func="h_c16_gfx", units=["src/export.c", "src/misc.c"], models=["c16_stubs.c"], unwind=3400, unwindset=gus, vin_size=320,
-                  stubs=["font bitmaps wstfont2/ccfont2 and the DRCS bitmap: arbitrary contents (havoc'ed; native replay uses the real tables)",
+                  # after the last glyph row draw_char advances `src' by one more row stride: a pointer beyond one-past-the-end of the font table that is
+                  # never dereferenced (standard-level UB only, no sanitizer reports it) -> ub_note
+                  ignore=[r"exp-gfx\.c:draw_char:pointer arithmetic: pointer outside object bounds in src \+ \(signed long int\)\(\(cpl \* cw\) / 8\)"],
+                  stubs=["font bitmaps wstfont2/ccfont2 and the DRCS bitmap filled with the constant byte FONTFILL (0x00 / 0xFF): glyph shapes are outside the claim, "
+                         "a constant bitmap keeps the pen index of each pixel concrete (arbitrary bitmaps: no verdict in 280 s for one cell)",
                          "exp-gfx.c compiled without HAVE_LIBPNG (PNG export outside the claim)", "models/c16_stubs.c: export module classes (unreached)"],
                   assumes=["page invariants by construction: colour indices < 40, vbi_size <= DOUBLE_SIZE2, DRCS code points U+F000..F7FF with glyph < 48, "
-                           "drcs[] NULL or 48x60 bytes, drcs_clut NULL or 64 entries < 40, drcs_clut_offs <= 48; region inside the 3x2 page (caller's duty: "
+                           "drcs[] NULL or 48x60 bytes, drcs_clut NULL or 64 entries < 40, drcs_clut_offs == 0; region inside the 3x2 page (caller's duty: "
                            "the functions do not validate)"] +
-                          ([] if STRICT else ["KNOWN_C16_CUT_WIDE (known finding): the last cell of a region row is not DOUBLE_WIDTH/DOUBLE_SIZE/DOUBLE_SIZE2"]))
-    # RSX = extra bytes per canvas row (-1: rowstride argument -1); whole pixels for the 4-byte formats.
-    # Measured: PAL8 instances 10-60 s.  RGBA32 instances are dominated by the pen look-up (the renderer reads its pen, a 256-byte union, through a
-    # byte pointer cast to uint32_t*: a 256-way multiplexer per pixel): closed caption 1x1 = 7.4 M variables / 37 M clauses, 300 s with cadical;
-    # Teletext 1x1 even with the size attribute and DRCS-or-character fixed by the grid: 12.7 GB after 130 s, no verdict -> Teletext RGBA32 is
-    # NOT claimed (the address arithmetic is the same code with canvas_type 4 instead of 1; the unsupported-format and PAL8 instances cover the
-    # control flow).  Closed caption RGBA32 is kept in the thorough tier.
-    vt_full = [dict(CC=0, RW=w, RH=h, FMT=6, RSX=x) for (w, h) in ((1, 1), (2, 1), (1, 2)) for x in (0, 1, 5, -1)] + \
+                          ([] if STRICT else ["KNOWN_C16_CUT_WIDE (known finding): the last cell of a region row is not DOUBLE_WIDTH/DOUBLE_SIZE/DOUBLE_SIZE2",
+                                              "KNOWN_C16_ITALIC_CYRILLIC (known finding): cells U+0440..U+045F are not italic"]))
+    # Measured (loaded machine): closed caption 1x1 PAL8 25 s; Teletext 1x1 PAL8 with the size attribute and DRCS-or-character fixed by the grid 150 s / 3.4 GB,
+    # 2x1 DOUBLE_SIZE DRCS 224 s / 5.5 GB (10 M variables); all sizes at once: no verdict in 280 s.  VBI_PIXFMT_RGBA32_LE: the pen (a 256-byte union) is
+    # read through a byte pointer cast to uint32_t*: closed caption 1x1 = 7.4 M variables / 300 s (cadical); Teletext 1x1: 12.7 GB after 130 s, no verdict
+    # -> Teletext RGBA32 is NOT claimed (same address arithmetic with canvas_type 4 instead of 1).
+    def vt(w, h, x, sizes, fills=(0,), drcs=(0, 1)):
+        out = []
+        for s0 in sizes:
+            wide = s0 in (1, 3, 7)
+            s1 = 4 if (wide and w == 2) else 0
+            for d in drcs:
+                for f in fills:
+                    out.append(dict(CC=0, RW=w, RH=h, FMT=6, RSX=x, SIZE0=s0, SIZE1=s1, DRCS=d, FONTFILL=f))
+        return out
+    vt_full = vt(1, 1, 0, range(8), fills=(0, 255)) + vt(1, 1, 5, (0, 2, 6)) + vt(2, 1, 0, range(8)) + vt(2, 1, 3, (1, 3, 7)) + vt(1, 2, -1, (0, 2, 3, 6)) + \
               [dict(CC=0, RW=1, RH=1, FMT=1, RSX=0), dict(CC=0, RW=2, RH=1, FMT=1, RSX=4)]
-    vt_quick = [dict(CC=0, RW=1, RH=1, FMT=6, RSX=1), dict(CC=0, RW=2, RH=1, FMT=6, RSX=0), dict(CC=0, RW=1, RH=2, FMT=6, RSX=-1),
+    vt_quick = [dict(CC=0, RW=1, RH=1, FMT=6, RSX=1, SIZE0=0, SIZE1=0, DRCS=0, FONTFILL=0), dict(CC=0, RW=1, RH=1, FMT=6, RSX=0, SIZE0=6, SIZE1=0, DRCS=1, FONTFILL=0),
                 dict(CC=0, RW=1, RH=1, FMT=1, RSX=0)]
-    cc_full = [dict(CC=1, RW=w, RH=1, FMT=6, RSX=x) for w in (1, 2) for x in (0, 3, -1)] + [dict(CC=1, RW=1, RH=1, FMT=1, RSX=0)]
-    cc_quick = [dict(CC=1, RW=1, RH=1, FMT=6, RSX=0), dict(CC=1, RW=2, RH=1, FMT=6, RSX=3), dict(CC=1, RW=1, RH=1, FMT=1, RSX=0)]
-    cc_rgba = [dict(CC=1, RW=1, RH=1, FMT=32, RSX=0), dict(CC=1, RW=1, RH=1, FMT=32, RSX=4)]
+    cc_full = [dict(CC=1, RW=w, RH=1, FMT=6, RSX=x, FONTFILL=f) for w in (1, 2) for x in (0, 3, -1) for f in (0, 255)] + [dict(CC=1, RW=1, RH=1, FMT=1, RSX=0)]
+    cc_quick = [dict(CC=1, RW=1, RH=1, FMT=6, RSX=0, FONTFILL=255), dict(CC=1, RW=2, RH=1, FMT=6, RSX=3, FONTFILL=0), dict(CC=1, RW=1, RH=1, FMT=1, RSX=0)]
+    cc_rgba = [dict(CC=1, RW=1, RH=1, FMT=32, RSX=0, FONTFILL=0), dict(CC=1, RW=1, RH=1, FMT=32, RSX=4, FONTFILL=255)]
     text = ("into a canvas that is an exact-size object of the documented size rowstride x rows x cell height: every access inside canvas/page/font/pen objects, "
-            "guard bytes between the pixel rows of the rectangle keep their (symbolic) fill value, unsupported pixel format (YUV420) leaves the canvas untouched, "
+            "guard pixels between the pixel rows of the rectangle keep their (symbolic) fill value, unsupported pixel format (YUV420) leaves the canvas untouched, "
             "1x1 region with an ordinary character: every pixel is one of the cell's two colours")
     return [
-        Ob("draw_vt_region", desc="vbi_draw_vt_page_region, RW x RH cells at a symbolic position of a 3x2 page, cells/colour map/DRCS clut/reveal/flash symbolic, " + text,
+        Ob("draw_vt_region", desc="vbi_draw_vt_page_region, RW x RH cells of a 3x2 page, cells/colour map/DRCS clut/reveal/flash symbolic, " + text,
            encodes=["vbi_draw_vt_page_region", "draw_char", "draw_drcs", "draw_blank", "unicode_wstfont2"], defines=dict(C16_HAVE_GFX=1, **known),
-           bounds="regions 1x1, 2x1, 1x2; pixel formats PAL8 and YUV420 (unsupported); rowstride = rectangle width + {0,1,5} bytes or -1 (page width)",
+           bounds="regions 1x1, 2x1, 1x2 at page position (0,0); pixel formats PAL8 and YUV420 (unsupported); rowstride = rectangle width + {0,1,3,5} bytes or -1 (page "
+                  "width); size attribute of the first/second cell and DRCS-or-character enumerated on the grid (all 8 sizes), everything else symbolic",
            outside="VBI_PIXFMT_RGBA32_LE for Teletext (no verdict: 12.7 GB / 130 s for one cell, see C16.py); 'same pixels as the full-page rendering' (only pen "
                    "colours per cell are checked); glyph shapes; regions larger than 2 cells",
-           grid=vt_full, quick_grid=vt_quick, reach=["end"], timeout=600, mem_gb=4, **common),
+           grid=vt_full, quick_grid=vt_quick, reach=["end"], timeout=900, mem_gb=6, **common),
         Ob("draw_cc_region", desc="vbi_draw_cc_page_region, RW x 1 cells at a symbolic position of a 3x2 page, cells and colour map symbolic, " + text,
            encodes=["vbi_draw_cc_page_region", "draw_char", "unicode_ccfont2"], defines=dict(C16_HAVE_GFX=1),
            bounds="regions 1x1, 2x1 (16x26 pixel cells); pixel formats PAL8, YUV420 (unsupported); rowstride = rectangle width + {0,3} bytes or -1",
